@@ -324,6 +324,72 @@ def server_start_compression(u: U):
                 "a body announced as Content-Encoding: X is compressed with X, and the stale Content-Length is dropped")
 
 
+@unit("C02", "server.response_compression", functions=[f"{WRSP}:Response._do_start_compression"])
+def server_response_compression(u: U):
+    """Response._do_start_compression for every body kind (none, bytes, Payload) x chunked x coding: total (a response
+    without a body is a legal thing to compress: nothing), a fixed bytes body is compressed as a whole and announced with
+    its compressed length, streamed / payload bodies are handed to the stream writer's compressor"""
+    from multidict import CIMultiDict
+
+    from aiohttp.payload import Payload
+    from aiohttp.web_response import ContentCoding
+
+    coding = (ContentCoding.identity, ContentCoding.gzip, ContentCoding.deflate)[u.choose(3, "coding")]
+    kind = u.choose(3, "body_kind")  # 0 none, 1 bytes, 2 Payload
+    chunked = u.choose(2, "chunked") == 1
+    log = []
+
+    class _P(Payload):
+        def __init__(self):
+            pass
+
+        def decode(self, *a, **k):
+            return ""
+
+        def write(self, writer):
+            return None
+
+    class _Z:
+        def __init__(self, **kw):
+            log.append(("compressor", kw.get("encoding")))
+
+        def compress(self, data):
+            log.append(("compress", data))
+            return SAwait(result=b"COMP", name="compress")
+
+        def flush(self):
+            return b"END"
+
+    def super_start(self, c):
+        log.append(("writer_compression", c))
+        return SAwait(name="StreamResponse._do_start_compression")
+
+    body = (None, b"BODY", _P())[kind]
+    headers = CIMultiDict()
+    r = u.obj("Response", {"_chunked": chunked, "_body": body, "_compressed_body": None, "_headers": headers,
+                           "_zlib_executor_size": None, "_zlib_executor": None},
+              {"super._do_start_compression": super_start}, shared=False)
+    f = u.load(WRSP, "Response._do_start_compression", globals={"ZLibCompressor": _Z})
+    out = u.call(f, r, coding)
+    u.check("C02.compress.response.total", out.ok,
+            f"enable_compression() never makes a response fail, whatever its body - a Response without a body too: {out!r}",
+            known=[("F2d", kind == 0 and not chunked and coding is not ContentCoding.identity)],
+            witness={"body": ("none", "bytes", "payload")[kind], "chunked": chunked, "coding": coding.value})
+    if not out.ok:
+        return
+    cb = fields(r)["_compressed_body"]
+    if chunked or kind == 2:
+        u.check("C02.compress.response.streamed_by_writer", log == [("writer_compression", coding)] and cb is None,
+                "chunked and payload bodies are compressed by the stream writer as they are written")
+    elif coding is ContentCoding.identity or kind == 0:
+        u.check("C02.compress.response.nothing_to_do", cb is None and "Content-Encoding" not in headers and not log,
+                "identity coding, or no body at all: nothing is compressed and no Content-Encoding is announced")
+    else:
+        u.check("C02.compress.response.whole_body", cb == b"COMPEND" and ("compress", body) in log
+                and headers.get("Content-Encoding") == coding.value and headers.get("Content-Length") == str(len(b"COMPEND")),
+                "a fixed body is compressed as a whole (compress + flush) and announced with the coding and the compressed length")
+
+
 @unit("C02", "server.write_eof", functions=[f"{WRSP}:Response.write_eof"])
 def server_write_eof(u: U):
     """Response.write_eof for every body kind (none, bytes, pre-compressed bytes, Payload) x bodiless-or-not: the bytes
